@@ -194,9 +194,10 @@ def shouldStripQueryItem (normalizeAmp : Bool) (qf : QueryItemFilter)
       match (if normalizeAmp then comboLookup Gen.Normalize.ampQueryCombos key else none) with
       | some vs => valueIn vs item.2
       | none =>
-        match df with
-        | some keys => keys.any (fun k => k.toList == key)
-        | none =>
+        if (match df with
+            | some keys => keys.any (fun k => k.toList == key)
+            | none => false) then true
+        else
           match qf with
           | .lang => Gen.Normalize.langQueryKeys.any (fun k => k.toList == key)
           | .none => false
@@ -333,7 +334,7 @@ def normPath (o : Opts) (path : Str) (fragment query : Str) : Str :=
 cleaned string -/
 def normComps (puny : Str → Str) (o : Opts) (hasProto : Bool) (p : Parsed) : Comps :=
   let query := fixedQuery o p
-  let fragment := normFragment o.stripFragment p.fragment
+  let fragment := normFragment o.stripFragment (unquoteFragment p.fragment)
   let qsl := filterQuery o p.hostname query
   let qsl := unquoteQsl qsl
   { scheme := if o.stripProtocol || !hasProto then [] else p.scheme
@@ -393,7 +394,7 @@ def normalizeHostname (puny : Str → Str) (normalizeAmp : Bool) (hostname : Str
 def getNormalizedHostname (puny : Str → Str) (hostOf : Str → Option Str)
     (normalizeAmp inferRedirection : Bool) (url : Str) : Option Str :=
   let u := if inferRedirection then infer url else url
-  match hostOf (ensureProtocol (strip u) "http".toList) with
+  match hostOf (ensureProtocol (strip (stripControl u)) "http".toList) with
   | none => none
   | some h => if h.isEmpty then none else some (normalizeHostname puny normalizeAmp h)
 
